@@ -400,10 +400,12 @@ class G:
         kwonly = [self.uid("k")] if star and self.chance(50) else []
         kwreq = [self.uid("m")] if kwonly and self.chance(50) else []  # keyword-only WITHOUT default, written after one with a default
         kwargs = self.chance(20)
-        parts = list(req) + ["%s=%s" % (o, self.pick(["'dflt'", "7", "None", "'x' * 2"])) for o in opt]
+        # defaults of nested defs are evaluated where the def is declared, inside a render callable: they may read context names
+        dchoices = ["'dflt'", "7", "None", "'x' * 2"] + ([] if top else ["cs", "len(cl)", "cs.lower()"])
+        parts = list(req) + ["%s=%s" % (o, self.pick(dchoices)) for o in opt]
         if star:
             parts.append("*args")
-        parts += ["%s='kd'" % k for k in kwonly] + list(kwreq)
+        parts += ["%s=%s" % (k, "'kd'" if top else self.pick(["'kd'", "cs * 2", "len(cl) + cn", "cx1"])) for k in kwonly] + list(kwreq)
         if kwargs:
             parts.append("**kw")
         info = {"req": req, "opt": opt, "star": star, "kwonly": kwonly, "kwreq": kwreq, "kwargs": kwargs, "top": top}
